@@ -132,8 +132,11 @@ def query_battery(f, vs, E):
     if start in vs:
         labels = sorted({l for (_, l, _) in E}) + ["z"]
         step = {(t, l): h for (t, l, h) in E}
-        words = [""] + labels + [a + b for a in labels for b in labels]
+        words = [[]] + [[a] for a in labels] + [[a, b] for a in labels for b in labels]
+        single = all(len(l) == 1 for l in labels)
         for w in words:
+            if single:
+                w = "".join(w)
             cur = start
             for ch in w:
                 cur = step.get((cur, ch))
